@@ -16,7 +16,9 @@ RUN_NOTE = ("Trusted: Coq 8.16.1 kernel incl. vm_compute (no native_compute); no
             "(coq/RefSem.v). The faithful net model (coq/NetModel.v) is PROVED to produce the reference semantics' trace on the "
             "fragment services / task calls / Parallel / Condition / While (coq/Refine, Properties/Refinement.v: "
             "net_refines_ref_fragment; all programs, oracles, scripts; engines without immediate or re-entrant completions; "
-            "test identifiers; every sufficiently large fuel); outside that fragment, and between the implementation and the "
+            "test identifiers; every sufficiently large fuel; Properties/RefinementTransfer.v: on that fragment every successful run "
+            "of the net model, with any fuel, IS the reference trace, and the monitors holds_C01 / C07 / C04ctx / C08 / C14 / C17 / "
+            "C20 accept the FAITHFUL model's trace - net_C01_fragment etc., assuming the reference run succeeds); outside that fragment, and between the implementation and the "
             "net model, what ties them to /repo is the differential correspondence run on every invocation (sampling, "
             "not proof): the implementation, the reference semantics and the faithful net model (coq/NetModel.v, a "
             "transliteration of generator.py / logic.py / scheduler.py that reproduces the implementation's traces "
